@@ -17,14 +17,14 @@ LEVEL = "exploration"
 RULE = (
     "case = (depth 0..3 (thorough 4), sparse FITS leaf population F32/F64/U8/I16/I32 written by toasty - directly or painted in two passes "
     "through the read-modify-write interface -, leaf values small integers shifted by a generated offset (so that ranges contain "
-    "exact zeros, negative and large values) with generated NaN rectangles, optional tile filter, worker count k, schedule). The "
+    "exact zeros, negative and large values) with generated NaN rectangles and, in a fifth of the float leaves, a few +-inf pixels, optional tile filter, worker count k, schedule). The "
     "pyramid is cascaded through Builder.cascade() (serial, Engine A for k>=2, real multiprocessing in part realmp) and "
     "index_rel.wtml is written. Oracle: for EVERY tile of every level DATAMIN/DATAMAX read with astropy = min/max over the finite "
     "values of all generated leaf arrays beneath it (float32 rounding allowed, rtol 1.2e-7); the WTML's DataMin/DataMax and the "
     "Builder's imgset = the root's. Non-trivial: the root's averaged pixel range is strictly inside the true range and >=2 leaves "
     "with different ranges."
 )
-ASSUMPTIONS = ["values are finite or NaN (no infinities); leaves entirely NaN are not stored by toasty and are not generated here"]
+ASSUMPTIONS = ["float leaves may hold a few +-inf pixels (a fifth of them): the recorded range is that of the FINITE values, as the statement says; a pyramid without any defined pixel has no range and is not generated"]
 
 
 def exec_case(case, real=False):
@@ -159,6 +159,8 @@ def exec_case(case, real=False):
         cls.append("extremum-exactly-zero")
     if len(leaves) < 4**depth:
         cls.append("sparse")
+    if any(s_.get("inf") for s_ in case["leaves"] if s_.get("kind") is None):
+        cls.append("leaf-with-infinite-pixels")
     if case.get("filter"):
         cls.append("tile-filter")
     return Outcome(classes=cls, nontrivial=inside and len(ranges) >= 2, count=checked, info={"root": root_hdr[:2]})
